@@ -506,7 +506,7 @@ Lemma other_preserves H o s : HonestChain H -> Inv P U T s -> chain s `prefix_of
 Proof.
   intros [[tlH HokH] HUH] HI Hpre Hwf Hlim Hno.
   destruct (step_spec P U T HU HP s o HI Hwf Hlim) as [HI' Hrel]. split; [done|].
-  destruct o as [p now hs| | | | | | |]; cbn [StepRel] in Hrel; try (rewrite Hrel; split; [done|lia]).
+  destruct o as [p now hs| | | | | | | |]; cbn [StepRel] in Hrel; try (rewrite Hrel; split; [done|lia]).
   cbn [no_valid_offchain] in Hno. fold (onchain_only H now hs) in Hno.
   destruct (i_chain _ _ _ _ HI) as [tl Htl]. pose proof (ChainOK_ne _ _ _ _ _ Htl) as Hcne.
   pose proof (co_lim _ _ _ _ _ HokH) as HLH.
@@ -841,7 +841,7 @@ Proof.
       rewrite Forall_forall in Ho. destruct (Ho o Hin) as [Hok Hno]. split; [|split; [|done]].
       + assert (Hin2 : o ∈ ops ++ sched_ops sch ++ [OHeaders p 0 H]) by (apply elem_of_app; right; apply elem_of_app; by left).
         pose proof (op_ok_wf P _ o Hin2 Hok) as Hwf.
-        destruct o as [q now hs| | | | | | |]; cbn [wf_op] in *; try done. destruct Hwf as (_ & ? & ?). done.
+        destruct o as [q now hs| | | | | | | |]; cbn [wf_op] in *; try done. destruct Hwf as (_ & ? & ?). done.
       + assert (op_size o <= ops_size (sched_ops sch)); [|unfold LIMIT; lia].
         clear -Hin. induction (sched_ops sch) as [|o' l IH]; [by apply elem_of_nil in Hin|].
         cbn [ops_size foldr]. fold (ops_size l). pose proof (ops_size_nonneg l).
